@@ -111,12 +111,12 @@ func runRegistry(out string, scenarios int) {
 			scenarios = 3000
 		}
 	}
-	w := vt.NewWriter(out)
+	fw := vt.NewWriter(out)
 	rg := vt.Rng(18)
 	nOps := 0
 	for sc := 0; sc < scenarios; sc++ {
 		registry.ClearKMSClients() // alone: the scenario starts with an empty client list and fresh type URLs
-		w.Emit(vt.Ev{"ev": "reset", "sc": sc})
+		w := &orderedLog{}         // the scenario's totally ordered log; written out behind a reset line carrying its length
 		urls := []string{fmt.Sprintf("type.googleapis.com/verif.c18.s%d.s%d.A", vt.Seed(), sc), fmt.Sprintf("type.googleapis.com/verif.c18.s%d.s%d.B", vt.Seed(), sc)}
 		prefixes := []string{fmt.Sprintf("verif-kms-%d-a://", sc), fmt.Sprintf("verif-kms-%d-b://", sc)} // pairwise prefix-free
 		nclient := 0
@@ -153,10 +153,14 @@ func runRegistry(out string, scenarios int) {
 			runWindow(w, plan, rg, storm)
 			w.Emit(vt.Ev{"ev": "barrier"})
 		}
+		fw.Emit(vt.Ev{"ev": "reset", "sc": sc, "len": len(w.evs)})
+		for _, e := range w.evs {
+			fw.Emit(e)
+		}
 	}
 	registry.ClearKMSClients()
-	w.Close()
-	fmt.Printf("c18: %d registry scenarios, %d calls, %d log lines\n", scenarios, nOps, w.Count())
+	fw.Close()
+	fmt.Printf("c18: %d registry scenarios, %d calls, %d log lines\n", scenarios, nOps, fw.Count())
 }
 
 func randomRegOp(rg *rand.Rand, urls, prefixes []string, sc, g int, nclient *int) regOp {
@@ -186,7 +190,19 @@ func spin(n int) int {
 	return x
 }
 
-func runWindow(w *vt.Writer, plan [][]regOp, rg *rand.Rand, tight bool) {
+// orderedLog is the totally ordered log of one scenario (one mutex: see the package comment).
+type orderedLog struct {
+	mu  sync.Mutex
+	evs []vt.Ev
+}
+
+func (o *orderedLog) Emit(e vt.Ev) {
+	o.mu.Lock()
+	o.evs = append(o.evs, e)
+	o.mu.Unlock()
+}
+
+func runWindow(w *orderedLog, plan [][]regOp, rg *rand.Rand, tight bool) {
 	var arrived int32
 	jitter := make([][]int, len(plan))
 	for g := range plan {
